@@ -240,6 +240,9 @@ class Gen:
                     # (an iteration may consist of the break alone: the empty branch still ends the chain)
                     blocks.append([] if rs.below(4) == 0 else self.scoped(env2, depth + 1, budget, single=True))
                 els = self.scoped(env, depth + 1, budget, single=True) if rs.below(2) else None
+                if els is not None and rs.below(6) == 0:
+                    # a loop over an empty range: no iteration survives, the else block is all that is left
+                    nn, blocks = 0, []
                 out.append(["forbit", vec, nn, blocks, els])
         # temporaries defined in this block stay visible for the rest of the enclosing scope only when the
         # block is that scope's own statement list (handled by scoped())
@@ -569,7 +572,8 @@ def render(prog, attrs=None):
         "    for i in range(3):",
         "        if vec[i]:",
         "            return x + i",
-        "    return y",
+        "    else:",
+        "        return y",
         "",
         "def cmpsel(c, x, y):",
         "    if c:",
